@@ -34,13 +34,15 @@ def run_config(cfg):
     import_dreye()
     from dreye.api import _verif
     from dreye.api.optimize.lsq_linear import lsq_linear_decomposition
-    name, n_layers, mask, eq, subsample, lbp, ubp, seed, max_iter, K, bl = cfg
+    name, n_layers, mask, eq, subsample, lbp, ubp, seed, max_iter, K, bl = cfg[:11]
+    extra = cfg[11] if len(cfg) > 11 else {}
+    u = extra.get("unit", 1.0)          # intensity unit (power of two): bounds * u, capture matrix / u
     sd = SYSTEMS[name]
-    A, lb, ub = np.array(sd["A"]), np.array(sd["lb"]), np.array(sd["ub"])
+    A, lb, ub = np.array(sd["A"]) / u, np.array(sd["lb"]) * u, np.array(sd["ub"]) * u
     d, m = A.shape
     rng = np.random.default_rng(seed + 17)
     nS = 10
-    Xt = rng.uniform(0.1, 0.9, (n_layers, m)) * (np.array(mask) if mask is not None else 1.0)
+    Xt = rng.uniform(0.1, 0.9, (n_layers, m)) * (np.array(mask) if mask is not None else 1.0) * u
     Pt = rng.uniform(lbp, ubp, (nS, n_layers))
     Kv = None if K is None else np.array(K)
     blv = None if bl is None else np.array(bl)
@@ -49,20 +51,33 @@ def run_config(cfg):
     # light-induced targets stay non-negative (the NMF initialisation requires it)
     B = np.maximum(Pt @ Xt @ Aeff.T + rng.normal(0, 0.02, (nS, d)), 0.0) + bleff
     where0 = dict(sys=name, n_layers=n_layers, masked=mask is not None, equal_l1=eq, subsample=bool(subsample), lbp=lbp, ubp=ubp,
-                  K=K is not None, baseline=bl is not None)
+                  K=K is not None, baseline=bl is not None, unit=("1" if u == 1 else "2^-10"), weighted=bool(extra.get("weighted")))
     bad, events = [], []
     kw = dict(n_layers=n_layers, mask=(None if mask is None else np.array(mask, float)), lb=lb, ub=ub, lbp=lbp, ubp=ubp,
               K=Kv, baseline=blv, max_iter=max_iter, seed=seed, subsample=subsample, equal_l1norm_constraint=eq, return_pred=True)
+    Wm = np.ones((nS, d))
+    if extra.get("weighted"):
+        # per-sample weights: one sample far off the model with unequal receptor weights, all others with weight one
+        B[nS - 1, 0] += 0.6
+        Wm[nS - 1] = [4.0] + [1.0] * (d - 1)
+        kw["W"] = Wm
+    # the caller's arrays: the SAME objects are handed to both calls and must come back untouched
+    owned = dict(A=A, B=B, lb=lb, ub=ub, W=Wm, **({} if mask is None else dict(mask=kw["mask"])))
+    keep = {k: v.copy() for k, v in owned.items()}
     results = []
     for rep in range(2):
         del _verif.EVENTS[:]
         try:
             with warnings.catch_warnings():
                 warnings.simplefilter("ignore")
-                X, P, Bp = lsq_linear_decomposition(A, B.copy(), **kw)
+                X, P, Bp = lsq_linear_decomposition(A, B, **kw)
         except Exception as ex:
             bad.append(("C11.no-error", dict(exc=type(ex).__name__, **where0), None, repr(ex)[:200]))
             return bad, events, 0
+        for k, v in owned.items():
+            if not np.array_equal(v, keep[k]):
+                bad.append(("C11.caller-array-untouched", dict(array=k, call=rep, **where0), keep[k].tolist(), v.tolist()))
+                v[...] = keep[k]
         results.append((np.asarray(X, float), np.asarray(P, float), np.asarray(Bp, float)))
         if rep == 0:
             hook = [dict(e) for e in _verif.EVENTS if e["ev"].startswith("Decomp")]
@@ -73,11 +88,11 @@ def run_config(cfg):
     if X.shape != (n_layers, m) or P.shape != (nS, n_layers):
         bad.append(("C11.shapes", where0, [(n_layers, m), (nS, n_layers)], [list(X.shape), list(P.shape)]))
         return bad, events, 0
-    if np.any(X < lb - tol) or np.any(X > ub + tol):
+    if np.any(X < lb - tol * u) or np.any(X > ub + tol * u):
         bad.append(("C11.intensity-bounds", where0, [lb.tolist(), ub.tolist()], X.tolist()))
-    if mask is not None and np.any(np.array(mask) == 0) and np.max(np.abs(X[np.array(mask) == 0])) > tol:
+    if mask is not None and np.any(np.array(mask) == 0) and np.max(np.abs(X[np.array(mask) == 0])) > tol * u:
         bad.append(("C11.mask", where0, 0.0, float(np.max(np.abs(X[np.array(mask) == 0])))))
-    if eq and n_layers > 1 and np.ptp(X.sum(1)) > 2 * tol * m:
+    if eq and n_layers > 1 and np.ptp(X.sum(1)) > 2 * tol * m * u:
         bad.append(("C11.equal-l1", where0, 0.0, float(np.ptp(X.sum(1)))))
     if np.any(P < lbp - tol) or np.any(P > ubp + tol):
         bad.append(("C11.opacity-bounds", where0, [lbp, ubp], [float(P.min()), float(P.max())]))
@@ -88,7 +103,7 @@ def run_config(cfg):
     T = B - bleff
 
     def loss_of(Pm, Xm):
-        return np.linalg.norm(Pm @ Xm @ Aeff.T - T)
+        return np.linalg.norm(Wm * (Pm @ Xm @ Aeff.T - T))
     base = loss_of(P, X)
     prng = np.random.default_rng(seed + 5)
     if subsample:
@@ -98,8 +113,9 @@ def run_config(cfg):
         V = (X @ Aeff.T).T                      # d x layers
         worst = 0.0
         for srow in range(P.shape[0]):
-            ropt = _bvls(V, T[srow], bounds=(np.full(P.shape[1], lbp, float), np.full(P.shape[1], ubp, float) + (1e-12 if lbp == ubp else 0)), method="bvls")
-            mine = np.linalg.norm(V @ P[srow] - T[srow])
+            Vw, tw = V * Wm[srow][:, None], T[srow] * Wm[srow]
+            ropt = _bvls(Vw, tw, bounds=(np.full(P.shape[1], lbp, float), np.full(P.shape[1], ubp, float) + (1e-12 if lbp == ubp else 0)), method="bvls")
+            mine = np.linalg.norm(Vw @ P[srow] - tw)
             worst = max(worst, mine - np.sqrt(2 * ropt.cost))
         if worst > 2e-3 * (1 + base):
             bad.append(("C11.last-factor-optimal", dict(factor="P", kind="row-optimum", **where0), 0.0, float(worst)))
@@ -110,7 +126,7 @@ def run_config(cfg):
                 break
     else:
         for _ in range(30):
-            Xn = np.clip(X + prng.normal(0, 0.05, X.shape), lb, ub)
+            Xn = np.clip(X + prng.normal(0, 0.05, X.shape) * u, lb, ub)
             if mask is not None:
                 Xn = Xn * np.array(mask)
             if eq and n_layers > 1:
@@ -212,6 +228,12 @@ def run(ctx):
     if not thorough:
         rng.shuffle(cfgs)
         cfgs = cfgs[:32]
+    # the same kind of runs in a small intensity unit, and with per-sample weights under subsampling
+    base = [c for c in cfgs]
+    rng.shuffle(base)
+    small = [c + (dict(unit=2.0 ** -10),) for c in base[: (24 if thorough else 8)]]
+    wsub = [c[:4] + (0.6,) + c[5:] + (dict(weighted=True),) for c in base[-(40 if thorough else 12):]]
+    cfgs = [c + ({},) for c in cfgs] + small + wsub
     parts = pmap(run_config, cfgs, chunksize=1)
     events = []
     for cfg, (bad, ev, niter) in zip(cfgs, parts):
